@@ -24,6 +24,8 @@ type planDest struct {
 	// second socket.
 	AltPort bool `json:"altPort,omitempty"`
 	SameAs  int  `json:"sameAs,omitempty"`
+	// Port0: the target's IP with port 0 - a datagram the relay's outbound socket cannot send (EINVAL).
+	Port0 bool `json:"port0,omitempty"`
 }
 
 // tourStops are the destinations one session walks through (a single NAT / ss2022 session that
@@ -34,7 +36,10 @@ type tourStops struct {
 }
 
 type planOp struct {
-	Kind string     `json:"kind"` // paced | burst | rebind | tour
+	// paced | burst | rebind | tour | relayswitch (send to another client-facing address of the relay, one
+	// echo, then a burst of replies) | freshburst (new client socket, burst of N datagrams of which some are
+	// addressed to the unsendable destination Alt, then a paced datagram)
+	Kind string     `json:"kind"`
 	Dest int        `json:"dest"` // index into Dests
 	Alt  int        `json:"alt"`  // second dest; paced/burst alternate Dest, Alt
 	N    int        `json:"n"`
@@ -76,6 +81,9 @@ type plan struct {
 	DropFirst int `json:"dropFirst"`
 	// TargetOnly: direct (tunnel) server with tunnelUDPTargetOnly (IP tunnel destination only).
 	TargetOnly bool `json:"targetOnly,omitempty"`
+	// Wildcard: "" | "0.0.0.0" | "[::]": the listener is bound to the wildcard address and clients use
+	// several local addresses of the relay (127.0.0.1, .2, .3).
+	Wildcard string `json:"wildcard,omitempty"`
 }
 
 var serverProtos = []string{"socks5", "none", "direct", "2022-blake3-aes-128-gcm", "2022-blake3-aes-256-gcm"}
@@ -134,6 +142,12 @@ func drawPlan(rt *rapid.T) *plan {
 	}
 	nd := len(p.Dests)
 	p.TunnelDest = rapid.IntRange(0, nd-1).Draw(rt, "tunnelDest")
+	p.Wildcard = rapid.SampledFrom([]string{"", "", "0.0.0.0", "[::]"}).Draw(rt, "wildcard")
+	port0 := -1
+	if p.ServerProto != "direct" {
+		port0 = len(p.Dests)
+		p.Dests = append(p.Dests, planDest{Sock: 0, Port0: true})
+	}
 	nSess := rapid.IntRange(1, 8).Draw(rt, "nSessions")
 	usesDirectOut := p.Topology == "direct" || p.Topology == "chain"
 	nameSessions := 0
@@ -167,10 +181,14 @@ func drawPlan(rt *rapid.T) *plan {
 			for i := 0; i < n; i++ {
 				k := rapid.IntRange(0, 9).Draw(rt, label+"opKind")
 				switch {
-				case k < 6:
+				case k < 5:
 					ops = append(ops, planOp{Kind: "paced", Dest: d1, Alt: d2, N: rapid.IntRange(1, 4).Draw(rt, "pacedN"), Fill: drawFill(rt)})
-				case k < 8:
+				case k < 7:
 					ops = append(ops, planOp{Kind: "burst", Dest: d1, Alt: d2, N: rapid.IntRange(2, 40).Draw(rt, "burstN"), Fill: drawFill(rt)})
+				case k == 7 && p.Wildcard != "":
+					ops = append(ops, planOp{Kind: "relayswitch", Dest: d1, Alt: d1, N: rapid.IntRange(4, 32).Draw(rt, "replyBurst"), Fill: drawFill(rt)})
+				case k == 8 && port0 >= 0:
+					ops = append(ops, planOp{Kind: "freshburst", Dest: d1, Alt: port0, N: rapid.IntRange(6, 40).Draw(rt, "freshBurstN"), Fill: drawFill(rt)})
 				default:
 					if allowRebind {
 						ops = append(ops, planOp{Kind: "rebind"})
@@ -246,7 +264,7 @@ func (p *plan) class() string {
 				if o.Kind == "tour" {
 					names++
 					tour = true
-				} else if o.Kind != "rebind" && (p.Dests[o.Dest].Name || p.Dests[o.Alt].Name) {
+				} else if o.Kind != "rebind" && (p.Dests[o.Dest].Name || (o.Kind != "freshburst" && p.Dests[o.Alt].Name)) {
 					names++
 				}
 			}
@@ -256,7 +274,7 @@ func (p *plan) class() string {
 	if names > 0 {
 		nb = "names+"
 	}
-	return fmt.Sprintf("%s|eih=%v|%s|rb=%d,%d|%s|ceih=%v|%s|sess=%d|socks=%d|v6=%v|%s|rebind=%v|burst=%v|g=%d|alt=%d|tour=%v|drop=%d|to=%v",
+	return fmt.Sprintf("%s|eih=%v|%s|rb=%d,%d|%s|ceih=%v|%s|sess=%d|socks=%d|v6=%v|%s|rebind=%v|burst=%v|g=%d|alt=%d|tour=%v|drop=%d|to=%v|wild=%s",
 		p.ServerProto, p.ServerEIH, p.BatchMode, p.RelayBatch, p.RecvBatch, p.ClientProto, p.ClientEIH, p.Topology,
-		len(p.Sessions), p.NSock, p.V6, nb, rebind, burst, len(p.Garbage), p.AltEvery, tour, p.DropFirst, p.TargetOnly)
+		len(p.Sessions), p.NSock, p.V6, nb, rebind, burst, len(p.Garbage), p.AltEvery, tour, p.DropFirst, p.TargetOnly, p.Wildcard)
 }
